@@ -464,7 +464,7 @@ func c17Writer(c *ev.Ctx, depth int, states map[string]bool, transitions *int64)
 			if sig != "" {
 				k := c17Case{Obj: "Writer", Hist: append([]int(nil), h...), Names: histString(wAlphabet, h)}
 				hh := append([]int(nil), h...)
-				c.Confirm(&ev.Finding{Sig: sig, What: what, Case: k}, func() *ev.Finding {
+				c.ConfirmFree(&ev.Finding{Sig: sig, What: what, Case: k}, Flavour != "sched", func() *ev.Finding {
 					r2, x2 := execWriter(hh, nil)
 					if s2, _, _ := checkWriter(hh, r2, x2); s2 != "" {
 						return &ev.Finding{Sig: s2}
@@ -501,7 +501,7 @@ func c17Writer(c *ev.Ctx, depth int, states map[string]bool, transitions *int64)
 						if sig, what := writerResetDifferential(h, suffix); sig != "" {
 							k := c17Case{Obj: "Writer-reset", Hist: append([]int(nil), h...), Suffix: suffix, Names: histString(wAlphabet, h) + " || " + histString(wAlphabet, suffix)}
 							hh, ss := append([]int(nil), h...), append([]int(nil), suffix...)
-							c.Confirm(&ev.Finding{Sig: sig, What: what, Case: k}, func() *ev.Finding {
+							c.ConfirmFree(&ev.Finding{Sig: sig, What: what, Case: k}, Flavour != "sched", func() *ev.Finding {
 								if s2, _ := writerResetDifferential(hh, ss); s2 != "" {
 									return &ev.Finding{Sig: s2}
 								}
@@ -560,6 +560,7 @@ type rSource struct {
 	FrameLen int    // bytes the Reader may consume
 	Size     int    // header content size
 	Bad      bool   // must fail without delivering anything wrong
+	Loose    bool   // not judged against the model (the property does not say whether it is accepted): only hangs, panics and the Reset differential
 }
 
 func rSources() []rSource {
@@ -585,13 +586,23 @@ func rSources() []rSource {
 	fd, cd := ref.EncodeFrame(dep)
 	bad := ref.FramePlan{BSCode: 4, Indep: false, Blocks: []ref.BlockPlan{{Data: ref.EncodeBlock([]ref.Seq{{Lit: []byte("ab"), Off: 6, MLen: 4}, {Lit: []byte("tail5")}}), Decoded: nil}}}
 	fbad, _ := ref.EncodeFrame(bad)
+	// a legacy stream that ends with the Linux kernel's trailer (total decoded size): whether it is
+	// accepted is the library's choice; a reused Reader must make the same choice as a new one
+	kt := []byte{0x02, 0x21, 0x4C, 0x18}
+	ktc := payload('K', 12)
+	kb := ref.EncodeBlock([]ref.Seq{{Lit: ktc}})
+	kt = append(kt, byte(len(kb)), 0, 0, 0)
+	kt = append(kt, kb...)
+	kt = append(kt, byte(len(ktc)), 0, 0, 0)
 	return []rSource{
+
 		{Name: "A", Stream: fa, Content: ca, FrameLen: len(fa), Size: len(ca)},
 		{Name: "B+trail", Stream: trail, Content: cb, FrameLen: len(fb)},
 		{Name: "A||B", Stream: cat, Content: ca, FrameLen: len(fa), Size: len(ca)},
 		{Name: "empty", Stream: nil, Content: nil, FrameLen: 0},
 		{Name: "dep-ok", Stream: fd, Content: cd, FrameLen: len(fd)},
 		{Name: "dep-bad", Stream: fbad, Bad: true, FrameLen: len(fbad)},
+		{Name: "legacy-kt", Stream: kt, Content: ktc, FrameLen: len(kt), Loose: true},
 	}
 }
 
@@ -683,6 +694,13 @@ func checkReader(alpha []string, srcs []rSource, hist []int, start int, run *rRu
 		return "Reader: panic in a library goroutine: " + trunc(x.PanicMsg, 60), hs, ""
 	}
 	// "leak" is not judged here: a history may stop in the middle of a stream
+	for _, a := range hist {
+		for j := range srcs {
+			if srcs[j].Loose && alpha[a] == "reset:"+srcs[j].Name {
+				return "", "", "loose|" + hs
+			}
+		}
+	}
 	src := &srcs[start]
 	midReset := false
 	defer func() {
@@ -921,7 +939,7 @@ func c17Reader(c *ev.Ctx, depth int, states map[string]bool, transitions *int64)
 			if sig != "" {
 				k := c17Case{Obj: "Reader", Hist: append([]int(nil), h...), Names: histString(alpha, h)}
 				hh := append([]int(nil), h...)
-				c.Confirm(&ev.Finding{Sig: sig, What: what, Case: k}, func() *ev.Finding {
+				c.ConfirmFree(&ev.Finding{Sig: sig, What: what, Case: k}, Flavour != "sched", func() *ev.Finding {
 					r2, x2 := execReader(alpha, srcs, hh, 0, nil)
 					if s2, _, _ := checkReader(alpha, srcs, hh, 0, r2, x2); s2 != "" {
 						return &ev.Finding{Sig: s2}
@@ -950,7 +968,7 @@ func c17Reader(c *ev.Ctx, depth int, states map[string]bool, transitions *int64)
 						if sig, what := readerResetDifferential(alpha, srcs, h, suffix); sig != "" {
 							k := c17Case{Obj: "Reader-reset", Hist: append([]int(nil), h...), Suffix: suffix, Names: histString(alpha, h) + " || " + histString(alpha, suffix)}
 							hh, ss := append([]int(nil), h...), append([]int(nil), suffix...)
-							c.Confirm(&ev.Finding{Sig: sig, What: what, Case: k}, func() *ev.Finding {
+							c.ConfirmFree(&ev.Finding{Sig: sig, What: what, Case: k}, Flavour != "sched", func() *ev.Finding {
 								if s2, _ := readerResetDifferential(alpha, srcs, hh, ss); s2 != "" {
 									return &ev.Finding{Sig: s2}
 								}
